@@ -20,18 +20,14 @@
 #define VP_S 12
 #endif
 #define VP_FLAT_CAP VP_S
+#define VP_FLAT_RANGES 1
+#define VP_FLAT_NRANGES REF_MAXCHUNKS
 #define REF_MAXSTREAM VP_S
 #define REF_MAXLINE VP_S
 #define REF_MAXCHUNKS ((VP_S / 5) + 2)
 #include "http_flatbuf.h"
 #include "http_ref.h"
 
-/* an empty line (CRLF or LF) where a chunk-size line is expected */
-static int kf_blank_size_line(const struct ref_chunked *L, const unsigned char *s, size_t n)
-{
-	(void)L; (void)s; (void)n;
-	return 0;
-}
 
 void harness_chunked(void)
 {
@@ -52,6 +48,7 @@ void harness_chunked(void)
 	in = evbuffer_new();
 	body = evbuffer_new();
 	vp_flat_put(in, stream, 0, n);
+	in->is_stream = 1;
 	req.evcon = &evcon;
 	req.kind = EVHTTP_REQUEST;
 	req.input_buffer = body;
@@ -61,9 +58,6 @@ void harness_chunked(void)
 
 	ref_chunked_decode(stream, n, 0, &S);
 	ref_chunked_decode(stream, n, 1, &L);
-#ifdef KF_EXCLUDE_CHUNK_CRLF
-	__CPROVER_assume(!(L.status == REF_C_REJECT && (L.reject_reason == REF_CR_AFTER_DATA || L.reject_reason == REF_CR_SIZE_LINE)) || 1);
-#endif
 
 	st = evhttp_handle_chunked_read(&req, in);
 
@@ -78,8 +72,10 @@ void harness_chunked(void)
 		VP_ASSERT((st == ALL_DATA_READ) == (L.status == REF_C_DONE), "C23: last-chunk recognised exactly where the chunked body ends");
 		if (L.status != REF_C_REJECT) {
 			VP_ASSERT(evbuffer_get_length(body) == L.body_len, "C23: body length delivered != octets of the complete chunks");
-			for (i = 0; i < VP_S; i++)
-				if (i < L.body_len && i < evbuffer_get_length(body) && body->d[body->off + i] != L.body[i]) same = 0;
+			/* the body is the concatenation of the chunk-data ranges of the stream, in order */
+			VP_ASSERT(body->nr == L.nchunks, "C23: number of chunks delivered != complete chunks on the wire");
+			for (i = 0; i < REF_MAXCHUNKS; i++)
+				if (i < L.nchunks && i < body->nr && (body->r_off[i] != L.c_off[i] || body->r_len[i] != L.c_len[i])) same = 0;
 			VP_ASSERT(same, "C23: body octets delivered != chunk-data on the wire");
 			VP_ASSERT(req.body_size == L.body_len || st == MORE_DATA_EXPECTED, "C23: body_size accounts exactly the chunk sizes");
 			if (st == ALL_DATA_READ)
